@@ -48,6 +48,21 @@ def Owns (s : State ρ) (j : ConnId) (d : Name) : Prop :=
 def withSender (m : Msg) (n : Option Name) : Msg := { m with sender := n }
 def eraseSender (m : Msg) : Msg := withSender m none
 
+/-- A message in the form every txdbus peer writes: only the header fields the DBus specification lists for
+its type (the per-class tables of message.py), no field with an unknown code.  For such a message the bus's
+parse + re-marshal step changes the sender and nothing else (`remarshal_canonical`); for others it drops
+the extra fields (known finding `forward-drops-unknown-header-fields`, witness `remarshal_drops_extra_fields`). -/
+def Canonical (m : Msg) : Prop :=
+  m.extra = [] ∧
+  (keeps m.mtype .path = false → m.path = none) ∧
+  (keeps m.mtype .interface = false → m.iface = none) ∧
+  (keeps m.mtype .member = false → m.member = none) ∧
+  (keeps m.mtype .errorName = false → m.errorName = none) ∧
+  (keeps m.mtype .replySerial = false → m.replySerial = none)
+
+/-- The message as any receiver sees it, sender erased: what the order statement compares. -/
+def wireForm (m : Msg) : Msg := eraseSender (remarshal m [])
+
 /-- A destination the bus has to deliver to: set, non-empty, not the bus itself. -/
 def Addressed (m : Msg) (d : Name) : Prop := m.dest = some d ∧ d ≠ [] ∧ d ≠ busName
 
@@ -82,6 +97,12 @@ def replyOf (dl : Delivery) : Option (ConnId × Nat) :=
   match dl.what with
   | .helloReply serial _ => some (dl.to, serial)
   | .busReply serial _ => some (dl.to, serial)
+  | _ => none
+
+/-- (receiver, name in the body) of a delivery that is the reply of the Hello short-cut. -/
+def helloNameOf (dl : Delivery) : Option (ConnId × Name) :=
+  match dl.what with
+  | .helloReply _ nm => some (dl.to, nm)
   | _ => none
 
 /-- Does the object handler answer this call?  Errors of the dispatch (`_send_err`) and the built-in
